@@ -4,7 +4,7 @@ CONTRACT_MODULES = ["metrics"]
 _M = ["rmse", "rmsle", "rmspe", "rpd", "smape", "residuals", "r2"]
 _L = ["rmse", "rmsle", "linear_residuals", "smape", "rpd", "rmspe", "linear_fit", "linear_transform",
       "rmse_points", "rmsle_points", "linear_residuals_points", "smape_points", "rpd_points", "rmspe_points",
-      "linear_fit_points", "linear_transform_points"]
+      "linear_fit_points", "linear_transform_points", "linear_fit_transform#def", "linear_fit_transform_points#def"]
 DEDUCTIVE = [("metrics", "kneeliverse.metrics." + m) for m in _M] + [("metrics", "kneeliverse.linear_fit." + m) for m in _L]
 EXPLANATION = ("Each metric's result is proved equal to its textbook formula (eps guard included) written independently with the spec fold "
                "Sum; equality of sums is by extensionality (pointwise side proofs). The linear-fit wrappers are proved to equal the metric "
